@@ -110,6 +110,8 @@ def canon_err(s):
     """tool error 'kind:errno:detail' -> 'kind:errno:origin-code'"""
     if s in ("ok", "-", "skip", "panic") or s.startswith("ok:"):
         return s
+    if s.startswith("hang"):
+        return "hang:never-returns:"
     k, e, d = s.split(":", 2)
     return "%s:%s:%s" % (k, e, ORIGIN.get(d, d) if k == "syscall" else "")
 
@@ -166,10 +168,12 @@ def run_corpus(res, pid, rng, n_random):
         model_lines.append(("seg %d %d %s %d %d %d %d" % ((mk, len(data), bl) + clk)).replace("  ", " "))
         wrt_lines.append("wrt %s %d %d %d %d %d %d %d" % ((pr,) + r))
         wrt_model.append(("wrt %d %d %s %d %d %d %d %d %d %d" % ((mk, len(data), bl) + r)).replace("  ", " "))
-    rust = c.run_lines(harness, rust_lines)
-    cout = c.run_lines(cdrv, c_lines, args=())
+    # opening a segment, and starting the daemon over one, must return: a call that does not is recorded
+    # as outcome "hang" (kind never-returns) instead of stopping the check
+    rust = c.run_lines_hang_aware(harness, rust_lines, "O:hang:0: K:hang:0: N:-")
+    cout = c.run_lines_hang_aware(cdrv, c_lines, "K:hang:0: N:-", args=())
     model = c.run_model(model_lines)
-    wrt = c.run_lines(harness, wrt_lines)
+    wrt = c.run_lines_hang_aware(harness, wrt_lines, "W:hang")
     wmodel = c.run_model(wrt_model)
     siz = c.run_lines(cdrv, ["siz"], args=())[0]
     results = []
